@@ -214,6 +214,8 @@ func Materialise(it Item) *Live {
 		default:
 			l.V = &PGH{l.St}
 		}
+	case "fmtr":
+		l.V = Fmtr(uint32(it.N))
 	case "chan":
 		l.V = make(chan int)
 	case "tm":
@@ -348,3 +350,26 @@ func NoAddressText(it Item) Item {
 	}
 	return it
 }
+
+// Mutate changes a live item in place (behind the cell's back) to the state
+// carried by to; it reports false if the item kind cannot be mutated.
+func Mutate(l *Live, it Item, to Item) bool {
+	switch it.K {
+	case "if", "ifp":
+		l.St.S, l.St.G, l.St.E = string(to.S), string(to.G), string(to.E)
+		return true
+	case "psx":
+		l.PSX.A, l.PSX.B = int(to.N), string(to.S)
+		return true
+	case "ints":
+		l.Ints[0] = int(to.N)
+		return true
+	}
+	return false
+}
+
+// Fmtr is a named basic-kind type that implements fmt.Formatter only: its
+// %v text is whatever Format writes.
+type Fmtr uint32
+
+func (f Fmtr) Format(st fmt.State, verb rune) { fmt.Fprintf(st, "0x%08x", uint32(f)) }
